@@ -58,12 +58,13 @@ func genUnprojected(t *rapid.T) unprojCase {
 			pts = append(pts, ps.planarFromDeg(rapid.Float64Range(-maxLat, maxLat).Draw(t, "lat3"), rapid.Float64Range(-360, 360).Draw(t, "lng3")))
 		}
 	}
-	l := 0.0
+	l, e0 := 0.0, 0.0
 	for i := 0; i+1 < len(pts); i++ {
 		dx := ps.wrapDelta(pts[i][0], pts[i+1][0])
 		l = math.Max(l, math.Hypot(dx, pts[i+1][1]-pts[i][1])*math.Pi/ps.Scale)
+		e0 = math.Max(e0, baseErr(ps, pts[i], dx, pts[i+1][1]-pts[i][1]))
 	}
-	return unprojCase{Kind: ps.Kind, Scale: ps.Scale, Tol: drawTol(t, l), Fam: fam, P: pts}
+	return unprojCase{Kind: ps.Kind, Scale: ps.Scale, Tol: drawTol(t, l, e0), Fam: fam, P: pts}
 }
 
 func checkUnprojected(c unprojCase) ev.Outcome {
@@ -261,6 +262,11 @@ func checkUnprojected(c unprojCase) ev.Outcome {
 			}
 		}
 		start = end
+	}
+	if len(chain) < 3 {
+		o.Counts["chains_without_subdivision"] = 1
+	} else if math.Max(worst, worstBack) <= 0.5*c.Tol {
+		o.Counts["subdivided_but_error_below_half_tol"] = 1
 	}
 	o.NonTrivial = len(chain) >= 3 && math.Max(worst, worstBack) > 0.5*c.Tol
 	o.Ratios = map[string]float64{"planar_to_chain_err/tol": worst / c.Tol, "chain_to_planar_err/tol": worstBack / c.Tol}
